@@ -215,4 +215,14 @@ theorem LatPath.mono {D D' : LV} {a b : Nat} (h : D.LatPath a b)
   | edge h => exact .edge (he _ _ h)
   | cons h hlat _ ih => exact .cons (he _ _ h) (hl _ _ h hlat) ih
 
+/-- a graph whose edges all increase some rank is acyclic -/
+theorem acyclic_of_rank (D : LV) (f : Nat → Nat) (h : ∀ e ∈ D.edges, f e.1 < f e.2) : D.Acyclic := by
+  have key : ∀ x y, TransGen D.Edge x y → f x < f y := by
+    intro x y hxy
+    induction hxy with
+    | single hab => exact h _ hab
+    | tail _ hbc ih => exact Nat.lt_trans ih (h _ hbc)
+  intro v hv
+  exact Nat.lt_irrefl _ (key v v hv)
+
 end Y0.LV
